@@ -7,7 +7,8 @@
 (***************************************************************************)
 EXTENDS IggyTopic, Json
 
-CONSTANTS P0Set, MaxP, Keys, MaxMsgs, MaxBatch, LimitSet, DelOldest, SegCap, MaxOps, Ops
+CONSTANTS P0Set, MaxP, Keys, MaxMsgs, MaxBatch, LimitSet, DelOldest, SegCap, MaxOps, Ops,
+          Kinds   \* partitioning kinds the sends may use (a family may restrict them, e.g. balanced only: deep rotation histories)
 
 VARIABLES fill,   \* ghost: [1..P -> Nat] messages in the open segment
           nextM,  \* next message number
@@ -38,7 +39,7 @@ SizeAfter == tsize' = LET s[i \in 0..P'] == IF i = 0 THEN 0 ELSE s[i - 1] + (Len
 
 MCSend ==
     /\ "send" \in Ops
-    /\ \E kind \in {"id", "key", "balanced"} : \E k \in 1..MaxBatch :
+    /\ \E kind \in Kinds : \E k \in 1..MaxBatch :
        \E v \in (IF kind = "id" THEN 1..(MaxP + 1) ELSE IF kind = "key" THEN Keys ELSE {0}) :
         /\ nextM + k - 1 <= MaxMsgs
         /\ LET ms == [i \in 1..k |-> nextM + i - 1] IN
